@@ -66,24 +66,27 @@ type observation struct {
 	Commits int // header commits seen by the underlying writer (explicit + implicit)
 }
 
-var trackedHeaders = []string{"X-A", "X-B", "Content-Type", "Location", "Set-Cookie"}
-
+// renderHeaders renders the complete header map of the committed snapshot (every name,
+// every value, names sorted): the client-visible header set is compared as a whole.
 func renderHeaders(h http.Header) string {
-	var parts []string
-	for _, k := range trackedHeaders {
-		if v, ok := h[k]; ok {
-			if k == "Set-Cookie" {
-				// only name=value is compared: how cookie() renders its options array is not
-				// part of this property
-				v = append([]string{}, v...)
-				for i := range v {
-					v[i], _, _ = strings.Cut(v[i], ";")
-				}
-			}
-			parts = append(parts, k+"="+strings.Join(v, "|"))
-		}
+	keys := make([]string, 0, len(h))
+	for k := range h {
+		keys = append(keys, k)
 	}
-	sort.Strings(parts)
+	sort.Strings(keys)
+	parts := make([]string, 0, len(keys))
+	for _, k := range keys {
+		v := h[k]
+		if k == "Set-Cookie" {
+			// only name=value is compared: how cookie() renders its options array is not
+			// part of this property
+			v = append([]string{}, v...)
+			for i := range v {
+				v[i], _, _ = strings.Cut(v[i], ";")
+			}
+		}
+		parts = append(parts, k+"="+strings.Join(v, "|"))
+	}
 	return strings.Join(parts, ";")
 }
 
